@@ -258,12 +258,24 @@ def c08c(chk, g):
     errs = g.aggregates("Error")
     chk.ob("C08.c", "genotype::From/PloidyError-exists-off-the-diploid-edge", len(errs) >= 1 and not any(an.dominated_by_edge(f, sb, t_dip, b) for b, _ in errs), f.loc(sb),
            "Result::Error(PloidyError) must be constructed, and only off the `len == 2` edge")
-    below = f.reachable_from(sb)
+    # every outcome produced once a call is present (outer `Some` edge of the Option argument), wherever it sits relative to the ploidy test
+    outer = None
+    for ob, ot in f.switches():
+        os_ = an.switch_subject(f, ob)
+        if os_["kind"] == "discr" and os_["place"] == (1, ()):
+            outer = (ob, an.edge_target(ot, 1))
+    if outer is None:
+        chk.fail("C08.c", "genotype::From/outer-option-match", f.loc(), "match on the Option<VcfGenotype> argument not recognised")
+        return
+    below = an.arm_region(f, outer[0], outer[1])
     other = [(rv["variant"], f.loc(b)) for b, rv in g.aggregates() if b in below and rv["variant"] != "Error" and not an.dominated_by_edge(f, sb, t_dip, b)]
     chk.ob("C08.c", "genotype::From/non-diploid-yields-only-Error", not other, f.loc(sb),
            "once a call is present, any outcome other than Error requires exactly two alleles (found off the diploid edge: %s)" % other)
     for b, t in g.pos:
         chk.ob("C08.c", "genotype::From/position()-under-len==2", an.dominated_by_edge(f, sb, t_dip, b), f.loc(b), "allele access must be dominated by the diploid test")
+    # no closure of this function inspects alleles on its own (e.g. `alleles.iter().any(|a| a.position().is_none())` before the ploidy test)
+    extra = [c.path for c in chk.prog.closures_of(f.path) if an.calls(c, ALLELE_POSITION)]
+    chk.ob("C08.c", "genotype::From/no-allele-inspection-outside-the-diploid-arm", not extra, f.loc(), "closures inspecting allele positions: %s" % extra)
 
 
 def f_const(f, op):
@@ -351,6 +363,7 @@ def c08f(chk):
         chk.ob("C08.f", "read_site/Error-arm-returns-ReadStatus::Error", constructs and not back and not reaches_read, f.loc(e),
                "a ploidy error in a selected sample must end read_site with ReadStatus::Error (constructs=%s, continues loop=%s, reaches Read=%s)" % (constructs, back, reaches_read))
         chk.ob("C08.f", "read_site/Error-arm-under-selection", an.dominated_by_edge(f, rs.sel_sw, rs.sel_some, e), f.loc(e), "only selected samples can raise the error")
+        RC.sample_loop_exits(chk, rs, "C08.f")
     f = chk.fn(RC.RUNNER_RUN)
     if f is None:
         return
@@ -394,7 +407,7 @@ def check_C09(chk):
     c09e(chk)
     c09f(chk)
     c09g(chk)
-    for r, n in (("C09.a", 2), ("C09.b", 9), ("C09.c", 3), ("C09.d", 5), ("C09.e", 3), ("C09.f", 2), ("C09.g", 2)):
+    for r, n in (("C09.a", 2), ("C09.b", 9), ("C09.c", 3), ("C09.d", 10), ("C09.e", 3), ("C09.f", 2), ("C09.g", 2)):
         chk.floor(r, n)
 
 
@@ -565,6 +578,22 @@ def c09d(chk):
             adapt = [(x[1]["callee"].get("path") or "").split("::")[-1] for x in info["calls"]]
             ok = sorted(adapt) == ["lines", "map"]
         chk.ob("C09.d", "Map::from_str/lines-in-file-order", ok, f.loc(), "samples file is read line by line in order (adaptors: %s)" % (adapt if len(coll) == 1 else "?"))
+        # each line is split at the first TAB into (sample, Some(label)); a line without TAB is (line, None)
+        sep_ok = False
+        why = "closure not recognised"
+        for c in prog.closures_of(f.path):
+            chk.fns_analysed.add(c.path)
+            so = [t for b2, t in c.calls() if callee_is(t["callee"], "core::str::<impl str>::split_once")]
+            others = [callee_name(t["callee"]) for b2, t in c.calls() if not callee_is(t["callee"], "core::str::<impl str>::split_once")]
+            if len(so) == 1:
+                sep = an.const_of(c, so[0]["args"][1])
+                sepv = sep.get("val") if sep else None
+                recv = op_local(so[0]["args"][0])
+                rp = c.resolve_ptr(recv) if recv is not None else None
+                whole_line = recv is not None and (c.copy_root(recv) == 2 or (rp is not None and rp[0] == 2 and rp[1] in ((), (("deref",),))))
+                sep_ok = sepv == "\t" and whole_line and not others
+                why = "split_once(%r) on the whole line=%s, other calls=%s" % (sepv, whole_line, others)
+        chk.ob("C09.d", "Map::from_str/split-at-first-TAB", sep_ok, f.loc(), "the samples file is `sample<TAB>label`: names may contain spaces (%s)" % why)
 
 
 def c09e(chk):
